@@ -31,6 +31,8 @@ def instances(tier, seed):
     yield {"universe": [(0, 1), (1, 0), (0, 2)]}
     # equal hashes (hash(-1) == hash(-2) in CPython, so the two tuples collide in the index map), string vertex ids
     yield {"universe": [(-1, 0), (-2, 0), ("a", "b")]}
+    # an element that is falsy (the empty tuple) next to ordinary ones
+    yield {"universe": [(), (0, 1), (1, 2)]}
     if tier == "quick":
         yield {"universe": [(0, 1), (0, 2), (1, 2), (2, 1)]}
         yield {"universe": [(1, 2), (0, 5), (3, 4), (2, 1), (5, 0)]}
@@ -208,6 +210,38 @@ def run_instance(inst, tier):
                     if len(hist) >= 1 and not tm:
                         res.flags.add("reinsert-after-empty")
                     frontier.append((t, tm, h2))
+    # steps that are NOT observed in between: from every reachable state (which has just been observed: len, iteration,
+    # membership, draw) apply every pair of operations back to back and only then observe again
+    if len(universe) <= 4 and not res.violations:
+        ops = [(op, x) for x in universe for op in ("add", "remove")]
+        for k, hist in list(seen.items()):
+            s, model = build(hist)
+            list(iter(s)), len(s)
+            for o1 in ops:
+                for o2 in ops:
+                    t = copy.deepcopy(s)
+                    tm = set(model)
+                    for op, x in (o1, o2):
+                        try:
+                            (t.add if op == "add" else t.remove)(x)
+                            (tm.add if op == "add" else tm.discard)(x)
+                        except Exception:
+                            pass
+                    res.executions += 1
+                    res.transitions += 2
+                    items = list(iter(t))
+                    if len(t) != len(tm) or sorted(items, key=repr) != sorted(tm, key=repr) or \
+                            any((x in t) != (x in tm) for x in universe):
+                        res.violation("C20:unobserved-steps", f"after history {hist} (observed), then {o1}, {o2} without "
+                                      f"looking in between: iteration {items}, len {len(t)}, model "
+                                      f"{sorted(tm, key=repr)}", inst, history=hist + [o1, o2])
+                        break
+                else:
+                    continue
+                break
+            if res.violations:
+                break
+        res.flags.add("unobserved-pairs")
     if len(res.samples) < 3:
         longest = max(seen.values(), key=len)
         res.samples.append({"universe": universe, "states": len(seen), "deepest_shortest_history": longest})
